@@ -178,6 +178,36 @@ func NodePath(n Node) string {
 // similar to an XPath but currently has no wildcarding.  For example:
 // "/if:interfaces/if:interface" and "../config".
 func FindNode(n Node, path string) (Node, error) {
+	return findNode(n, path, newNodeSearch())
+}
+
+// A nodeSearch is the state of one FindNode or ChildNode call.  Looking
+// through a uses statement means finding its grouping and searching that,
+// which may lead back to the same uses (a grouping that uses itself, a uses
+// of a grouping that does not exist); the state ends such a search instead of
+// letting it recurse forever, and keeps what was already worked out so that
+// no grouping is searched for the same name twice.
+type nodeSearch struct {
+	active   map[Node]bool        // uses statements being looked through
+	grouping map[Node]Node        // uses statement -> what its name refers to
+	missing  map[nodeAndName]bool // searches that found nothing
+}
+
+type nodeAndName struct {
+	n    Node
+	name string
+}
+
+func newNodeSearch() *nodeSearch {
+	return &nodeSearch{
+		active:   map[Node]bool{},
+		grouping: map[Node]Node{},
+		missing:  map[nodeAndName]bool{},
+	}
+}
+
+// findNode implements FindNode.
+func findNode(n Node, path string, search *nodeSearch) (Node, error) {
 	if path == "" {
 		return n, nil
 	}
@@ -201,25 +231,34 @@ func FindNode(n Node, path string) (Node, error) {
 		// TODO(borman): merge this with FindModuleByPrefix?
 		// The base is always a module
 		mod := RootNode(n)
+		if mod == nil {
+			return nil, fmt.Errorf("%s: not part of a module", NodePath(n))
+		}
 		n = mod
 		prefix, _ := getPrefix(parts[0])
 		if mod.Kind() == "submodule" {
-			m := mod.Modules.Modules[mod.BelongsTo.Name]
-			if m == nil {
-				return nil, fmt.Errorf("%s: unknown module %s", m.Name, mod.BelongsTo.Name)
+			var m *Module
+			if mod.Modules != nil {
+				m = mod.Modules.Modules[mod.BelongsTo.Name]
 			}
-			if prefix == "" || prefix == mod.BelongsTo.Prefix.Name {
+			if m == nil {
+				return nil, fmt.Errorf("%s: unknown module %s", mod.Name, mod.BelongsTo.Name)
+			}
+			if prefix == "" || (mod.BelongsTo.Prefix != nil && prefix == mod.BelongsTo.Prefix.Name) {
 				goto processing
 			}
 			mod = m
 		}
 
-		if prefix == "" || prefix == mod.Prefix.Name {
+		if prefix == "" || (mod.Prefix != nil && prefix == mod.Prefix.Name) {
 			goto processing
 		}
 
 		for _, i := range mod.Import {
-			if prefix == i.Prefix.Name {
+			if i.Prefix != nil && prefix == i.Prefix.Name {
+				if i.Module == nil {
+					return nil, fmt.Errorf("%s: module %s is not loaded", parts[0], i.Name)
+				}
 				n = i.Module
 				goto processing
 			}
@@ -260,7 +299,7 @@ func FindNode(n Node, path string) (Node, error) {
 		// For now just strip off any prefix
 		// TODO(borman): fix this
 		_, spart := getPrefix(part)
-		n = ChildNode(n, spart)
+		n = childNode(n, spart, search)
 		if n == nil {
 			return nil, fmt.Errorf("%s: no such element", part)
 		}
@@ -273,6 +312,10 @@ func FindNode(n Node, path string) (Node, error) {
 // n as well as every node in all slices of Node pointers.  Names must
 // be non-ambiguous, otherwise ChildNode has a non-deterministic result.
 func ChildNode(n Node, name string) Node {
+	return childNode(n, name, newNodeSearch())
+}
+
+func childNode(n Node, name string, search *nodeSearch) Node {
 	v := reflect.ValueOf(n).Elem()
 	t := v.Type()
 	nf := t.NumField()
@@ -304,15 +347,30 @@ Loop:
 		}
 		if parts[0] == "uses" {
 			check = func(n Node) Node {
-				uname := n.NName()
-				// unrooted uses are rooted at root
-				if !strings.HasPrefix(uname, "/") {
-					uname = "/" + uname
+				if search.active[n] {
+					return nil
 				}
-				if n, _ = FindNode(n, uname); n != nil {
-					return ChildNode(n, name)
+				search.active[n] = true
+				defer delete(search.active, n)
+
+				g, known := search.grouping[n]
+				if !known {
+					uname := n.NName()
+					// unrooted uses are rooted at root
+					if !strings.HasPrefix(uname, "/") {
+						uname = "/" + uname
+					}
+					g, _ = findNode(n, uname, search)
+					search.grouping[n] = g
 				}
-				return nil
+				if g == nil || search.missing[nodeAndName{g, name}] {
+					return nil
+				}
+				c := childNode(g, name, search)
+				if c == nil {
+					search.missing[nodeAndName{g, name}] = true
+				}
+				return c
 			}
 		}
 
